@@ -24,6 +24,7 @@ PROP = {
         note=TB + "filters are enabled single-criterion ECU filters (Filter::matches itself is C11); regex call targets stubbed (never executed).",
         technique="bounded model checking of the real code (Kani/CBMC): one query per concrete container shape, symbolic filter verdicts"),
     "jobs": {"quick": 7, "thorough": 4},
+    "seed_extra": [("c12_set_", 1, 3)],
     "inject": [("src/filter/filter_impl.rs", "filter_set.rs")],
     "functions": ["utils::remote_utils::match_filters", "filter::Filter::matches (ECU-literal path)", "FilterKindContainer::{index,index_mut}"],
     "bounds": "<= 2 filters per kind (positive, negative, event), <= 2 markers; 1 message; all verdict combinations",
